@@ -3,6 +3,13 @@
 import json, os
 
 CLAIMED = {
+    "C08": ("Coq proof over Crash.v (write-level protocol + restart procedure) + crash injection at write k on the real code with model correspondence of every write and every rebuilt state",
+            "C08_restart_spec: from ANY directory content with a tuner file the restart rebuilds a state where nothing is handed out, every kept trial has exactly the status/score/payload of its file, files of a "
+            "create that never completed are ignored, every trial that was handed out is queued again unless its file says it ended (then it is not re-run), queued trials stay queued once. C08_boundary: at operation "
+            "boundaries restart = save+reload (so C07/C01/C02 apply). C08_end_images + C08_end_window: the images a crash inside end_trial can leave and what is rebuilt in the window where the files disagree. "
+            "PARTIAL: termination/budget of the resumed search from crash-only states and repeated crashes are explored (every crash point of generated searches is replayed on the real code and the resumed search run "
+            "to the end), not proved. Tie: save_json interception; order and content of all writes and the rebuilt state after k writes compared with the model.",
+            "Trusted: Coq kernel; python harness; each save_json is atomic; crash = BaseException before write k+1; single worker.", "DESIGN.md section 6 C08"),
     "C07": ("Coq proof over LReload.v (reload on the lifecycle core) + differential: reloaded oracle vs uninterrupted oracle on the same continuation",
             "C07_reload_shape / C07_ended_preserved / C07_waiting_requeued: for every reachable state (invariant Inv) save+reload keeps orders, retry bookkeeping and trial files, restores every ended trial "
             "exactly, restores every unfinished trial from its file with its run counter and queues it; C07_reload_is_requeue: when the algorithm state survives get_state/set_state the reloaded oracle IS the "
